@@ -32,7 +32,10 @@ RULE = ("grammar-based random statements of the ten query classes (SELECT/INSERT
         "sub-queries in select list / WHERE / IN / EXISTS / function arguments, correlated references to outer tables in "
         "WHERE and in other clauses, the same table joined again, sub-query objects already named by another statement) "
         "with a sentinel column name per bound reference; expression trees under random keyword contexts; and SQLLiteQuery "
-        "statements over a fixed schema that are executed against an explicit fully qualified reference. Non-trivial = at "
+        "statements over a fixed schema that are executed against an explicit fully qualified reference; histories of from_/join "
+        "calls in any order (sub-queries, set operations, re-used objects); systematic small products (auto-naming x source kind x "
+        "position, several where() calls x position of the correlating one, name2 x statement kind); and EVERY Term subclass of "
+        "pypika (enumerated from the sources, fail closed) x clause x source shape with sentinel columns (oracle only). Non-trivial = at "
         "least one bound reference in a scope with >= 2 row sources or an aliased source; distinct by structural hash.")
 TRUSTED = [
     "harness/queries_family.py + this file build the same statement on pypika and as a Gallina value",
@@ -331,6 +334,8 @@ def analyse(spec):
                                "nsrc": len(own_sources(s)) + (1 if s["k"] == "upd" else 0), "correlated": False,
                                "corr_where": False,
                                "setop_from": any(x[0] == "q" and x[1].get("k") == "set" for x in s.get("from", []) or []),
+                               "setop_from_plain_join": any(x[0] == "q" and x[1].get("k") == "set" for x in s.get("from", []) or [])
+                               and any(j[1][0] == "t" and j[1][1][2] is None for j in s.get("joins", []) or []),
                                "setop_join_unnamed": any(j[1][0] == "q" and j[1][1].get("k") == "set" and j[1][1].get("alias") is None
                                                          for j in s.get("joins", []) or [])}
     refs = []
@@ -1224,8 +1229,12 @@ def to_coq(case, outcome):
         if outcome["text"].startswith("!"):
             return None
         evs = []
-        for e, g in zip(case["evs"], outcome["given"]):
-            if e[1] == "table" or (e[1] == "setop" and e[0] == "join" and g is None):
+        for e, g, act in zip(case["evs"], outcome["given"], outcome["aliases"]):
+            if e[1] == "table":
+                # (a table's alias is not run_hist's business; with a set operation among the FROM items do_join gives ANY
+                #  un-aliased joined table the name2 alias, because `item in base_tables` compares with the Term on the left)
+                evs.append("(EOther %s)" % OS(act))
+            elif e[1] == "setop" and e[0] == "join" and g is None:
                 evs.append("(EOther %s)" % OS(g))
             elif e[1] == "setop" and e[0] == "from":
                 evs.append("(EFromQ %s %s)" % (OS(g), N(0)))
@@ -1246,7 +1255,7 @@ def to_coq(case, outcome):
         except Exception:  # noqa
             return None
     for st in outcome["info"].values():
-        if st.get("setop_join_unnamed") or (st.get("setop_from") and st.get("correlated")):
+        if st.get("setop_join_unnamed") or (st.get("setop_from") and st.get("correlated")) or st.get("setop_from_plain_join"):
             return None        # set-operation sources: join() leaves them nameless / _validate_table never sees a foreign table
     if any(r["bind"] == ["foreign"] and outcome["info"][str(r["sid"])].get("setop_from") for r in outcome["refs"]):
         return None
